@@ -67,7 +67,7 @@ type SgxValues struct {
 	PceID  []byte
 	FMSPC  []byte
 	// Seen records which of the elements were present.
-	SeenComp                                    [16]bool
+	SeenComp                                     [16]bool
 	SeenPPID, SeenPce, SeenCPU, SeenPceID, SeenF bool
 }
 
